@@ -464,6 +464,19 @@ func genAccess(r *Rng, es []srcEntry) []cOp {
 	nh := 0
 	var opened []string
 	n := r.Range(6, 24)
+	if r.Intn(5) == 0 {
+		// a directory handle paged once with a small count and then asked for "everything" with a huge count
+		d := "."
+		for _, e := range es {
+			if e.isDir && r.Intn(2) == 0 {
+				d = e.path
+			}
+		}
+		ops = append(ops, cOp{kind: "open", p: d}, cOp{kind: "readdir", h: 0, n: 1},
+			cOp{kind: "readdir", h: 0, n: []int{math.MaxInt, math.MaxInt - 1, 1 << 62}[r.Intn(3)]})
+		opened = append(opened, d)
+		nh++
+	}
 	for len(ops) < n {
 		switch r.Pick(6, 3, 8, 3, 3, 2, 2) {
 		case 0:
